@@ -1,5 +1,5 @@
 CONSTANTS MaxN = 4  Sizes = {0,1,2}  BSizes = {1,2,3}
-  Ops = {"sort","workers","rebatch","filterempty","filter","batchover","complete","concat","pair","divide","distribute","fragments","merge","limitmemory","copytee"}
+  Ops = {"sort","workers","rebatch","filterempty","filter","batchover","complete","concat","pair","divide","distribute","fragments","merge","limitmemory","copytee","expand"}
 INIT Init
 NEXT Next
 INVARIANTS ContractHolds NothingLostOrAdded Cuts Export
